@@ -14,10 +14,10 @@ EXTENDS DeliveryAbs, TraceCommon
 CONSTANT HWM
 
 VARIABLES l, scen, viol, bag, pnote, limited, gone, call, wires, blocked, pubs, got, relAt, backlog, maxn,
-          want, told, held, racy, pendingJoin
-tvars == <<avars, l, scen, viol, bag, pnote, limited, gone, call, wires, blocked, pubs, got, relAt, backlog, maxn, want, told, held, racy, pendingJoin>>
+          want, wantN, told, held, racy, pendingJoin
+tvars == <<avars, l, scen, viol, bag, pnote, limited, gone, call, wires, blocked, pubs, got, relAt, backlog, maxn, want, wantN, told, held, racy, pendingJoin>>
 pvars == <<bag, pnote, limited, gone, pubs, got, relAt, backlog, maxn>>
-subv == <<want, told, held, racy, pendingJoin>>
+subv == <<want, wantN, told, held, racy, pendingJoin>>
 
 E == Rec[l]
 Flag(code) == Report(scen, code, l) /\ viol' = viol \cup {code}
@@ -26,11 +26,11 @@ Step(evname) == l <= NRec /\ E.ev = evname /\ l' = l + 1
 
 TInit == AInit /\ l = 1 /\ scen = 0 /\ viol = {} /\ bag = EmptyMap /\ pnote = EmptyMap /\ limited = {} /\ gone = {} /\ call = <<>> /\ wires = <<>>
          /\ blocked = FALSE /\ pubs = <<>> /\ got = EmptyMap /\ relAt = EmptyMap /\ backlog = EmptyMap /\ maxn = 0
-         /\ want = {} /\ told = EmptyMap /\ held = {} /\ racy = {} /\ pendingJoin = {}
+         /\ want = {} /\ wantN = EmptyMap /\ told = EmptyMap /\ held = {} /\ racy = {} /\ pendingJoin = {}
 
 TReset == Step("reset") /\ scen' = E.scen /\ stype' = E.sock /\ conn' = {} /\ ident' = <<>> /\ pend' = <<>> /\ cut' = <<>> /\ credit' = 0
           /\ bag' = EmptyMap /\ pnote' = EmptyMap /\ limited' = {} /\ gone' = {} /\ call' = <<>> /\ wires' = <<>> /\ blocked' = FALSE /\ pubs' = <<>>
-          /\ got' = EmptyMap /\ relAt' = EmptyMap /\ backlog' = EmptyMap /\ maxn' = 0 /\ want' = {} /\ told' = EmptyMap /\ held' = {} /\ racy' = {}
+          /\ got' = EmptyMap /\ relAt' = EmptyMap /\ backlog' = EmptyMap /\ maxn' = 0 /\ want' = {} /\ wantN' = EmptyMap /\ told' = EmptyMap /\ held' = {} /\ racy' = {}
           /\ pendingJoin' = {} /\ UNCHANGED viol
 
 \* ---- subscription bags (C11 counting rule) -----------------------------------------------------
@@ -38,13 +38,21 @@ RECURSIVE RemoveFirst(_, _)
 RemoveFirst(s, t) == IF s = <<>> THEN <<>> ELSE IF Head(s) = t THEN Tail(s) ELSE <<Head(s)>> \o RemoveFirst(Tail(s), t)
 Apply(b, note) == IF note.k = "sub" THEN Append(b, note.t) ELSE IF note.k = "unsub" THEN RemoveFirst(b, note.t) ELSE b
 Bag(c) == Get(bag, c, <<>>)
-Matches(c, first) == \E i \in 1..Len(Bag(c)) : IsPrefixSeq(Bag(c)[i], first)
+MatchesBag(b, first) == \E i \in 1..Len(b) : IsPrefixSeq(b[i], first)
+Matches(c, first) == MatchesBag(Bag(c), first)
+\* XPUB: subscription messages that were written but not yet returned by recv may or may not have been processed already
+\* (the statement fixes the order of processing, not its moment): every prefix of them is a possible state
+RECURSIVE ApplyN(_, _, _)
+ApplyN(b, notes, j) == IF j = 0 THEN b ELSE ApplyN(Apply(b, Head(notes)), Tail(notes), j - 1)
+CandBags(c) == {ApplyN(Bag(c), Get(pnote, c, <<>>), j) : j \in 0..Len(Get(pnote, c, <<>>))}
+MustMatch(c, first) == \A b \in CandBags(c) : MatchesBag(b, first)
+MayMatch(c, first) == \E b \in CandBags(c) : MatchesBag(b, first)
 
-TAttachCall == Step("attach_call") /\ UNCHANGED <<avars, scen, pvars, call, wires, blocked, want, told, held, racy>> /\ NoFlag
+TAttachCall == Step("attach_call") /\ UNCHANGED <<avars, scen, pvars, call, wires, blocked, want, wantN, told, held, racy>> /\ NoFlag
                /\ pendingJoin' = pendingJoin \cup {E.c}
-TAttachPending == Step("attach_pending") /\ UNCHANGED <<avars, scen, pvars, call, wires, blocked, want, told, racy, pendingJoin>> /\ NoFlag
+TAttachPending == Step("attach_pending") /\ UNCHANGED <<avars, scen, pvars, call, wires, blocked, want, wantN, told, racy, pendingJoin>> /\ NoFlag
                /\ held' = IF Fld(E, "gate", FALSE) THEN held \cup {E.c} ELSE held
-TAttachRet == Step("attach_ret") /\ UNCHANGED <<scen, pvars, call, wires, blocked, want, told, racy>> /\ held' = held \ {E.c} /\ pendingJoin' = pendingJoin \ {E.c} /\
+TAttachRet == Step("attach_ret") /\ UNCHANGED <<scen, pvars, call, wires, blocked, want, wantN, told, racy>> /\ held' = held \ {E.c} /\ pendingJoin' = pendingJoin \ {E.c} /\
    IF E.res = "ok" THEN DoAdmit(E.c, E.id) /\ NoFlag
    ELSE IF E.res = "panic" THEN UNCHANGED avars /\ Flag("C13/panic-on-failing-peer")
    ELSE UNCHANGED avars /\ NoFlag
@@ -77,7 +85,7 @@ TSendCall == Step("send_call") /\ UNCHANGED <<avars, scen, bag, pnote, limited, 
    /\ maxn' = (IF Fld(E, "n", 0) > maxn THEN E.n ELSE maxn) /\ call' = <<E.m, Fld(E, "note", [first |-> <<>>]).first>> /\ wires' = <<>> /\ blocked' = FALSE
 TSendPending == Step("send_pending") /\ UNCHANGED <<avars, scen, pvars, call, wires, subv>> /\ blocked' = TRUE /\
    IF stype \in {"PUB", "XPUB"} THEN Flag("C12/publish-blocked") ELSE NoFlag
-TWire == Step("wire") /\ UNCHANGED <<avars, scen, bag, pnote, limited, gone, call, blocked, pubs, relAt, want, held, racy, pendingJoin>> /\
+TWire == Step("wire") /\ UNCHANGED <<avars, scen, bag, pnote, limited, gone, call, blocked, pubs, relAt, want, wantN, held, racy, pendingJoin>> /\
    IF E.k # "msg" THEN UNCHANGED <<wires, got, backlog, maxn, told>> /\ NoFlag
    ELSE IF stype = "SUB" THEN
         UNCHANGED <<wires, got, backlog, maxn>> /\ NoFlag /\
@@ -95,11 +103,11 @@ TSendRet == Step("send_ret") /\ UNCHANGED <<avars, scen, bag, pnote, limited, go
    IF stype \notin {"PUB", "XPUB"} \/ call = <<>> THEN UNCHANGED <<pubs, maxn>> /\ NoFlag
    ELSE LET m == call[1] first == call[2]
             healthy == (conn \ gone) \ limited IN
-        /\ pubs' = Append(pubs, <<m, {c \in conn : Matches(c, first)}>>)
+        /\ pubs' = Append(pubs, <<m, {c \in conn : MayMatch(c, first)}>>)
         /\ UNCHANGED maxn
         /\ IF E.res # "ok" /\ gone = {} THEN Flag("C12/publish-failed")
-           ELSE IF \E c \in healthy : Matches(c, first) /\ Copies(c, m) = 0 THEN Flag(IF limited # {} \/ gone # {} THEN "C12/healthy-subscriber-missed" ELSE "C11/missed-despite-match")
-           ELSE IF \E c \in conn : ~Matches(c, first) /\ Copies(c, m) > 0 THEN Flag("C11/delivered-without-match")
+           ELSE IF \E c \in healthy : MustMatch(c, first) /\ Copies(c, m) = 0 THEN Flag(IF limited # {} \/ gone # {} THEN "C12/healthy-subscriber-missed" ELSE "C11/missed-despite-match")
+           ELSE IF \E c \in conn : ~MayMatch(c, first) /\ Copies(c, m) > 0 THEN Flag("C11/delivered-without-match")
            ELSE IF \E c \in conn : Copies(c, m) > 1 THEN Flag("C11/delivered-twice")
            ELSE NoFlag
 
@@ -116,15 +124,21 @@ CountT(s, t) == IF s = <<>> THEN 0
                      IF Tail(e) # t THEN c ELSE IF e[1] = 1 THEN c + 1 ELSE IF e[1] = 0 THEN (IF c > 0 THEN c - 1 ELSE 0) ELSE c
 Mentioned(c) == {Tail(Get(told, c, <<>>)[i]) : i \in 1..Len(Get(told, c, <<>>))}
 ActiveAt(c) == {t \in Mentioned(c) : CountT(Get(told, c, <<>>), t) > 0}
+\* the socket's own subscription state is only visible through the API history; two readings are accepted, as long as ALL peers
+\* agree with the same one: a set (subscribe twice = once) or a counter per topic (each unsubscribe cancels one subscribe)
 TSubCall == Step("sub_call") /\ UNCHANGED <<avars, scen, pvars, call, wires, blocked, told, held, pendingJoin>> /\ NoFlag
    /\ want' = (IF E.on THEN want \cup {E.tb} ELSE want \ {E.tb})
+   /\ wantN' = Put(wantN, E.tb, IF E.on THEN Get(wantN, E.tb, 0) + 1 ELSE IF Get(wantN, E.tb, 0) > 0 THEN Get(wantN, E.tb, 0) - 1 ELSE 0)
    /\ racy' = racy \cup held \cup pendingJoin          \* a join is in flight while the set changes
 TSubPending == Step("sub_pending") /\ UNCHANGED <<avars, scen, pvars, call, wires, blocked, subv>> /\ NoFlag
 
 TQuiescent == Step("quiescent") /\ UNCHANGED <<avars, scen, pvars, call, wires, blocked, subv>> /\
    IF stype = "SUB" THEN
       (IF Fld(E, "pending", "none") # "none" \/ pendingJoin # {} THEN NoFlag
-       ELSE LET badp == {c \in conn \ gone : ActiveAt(c) # want} IN
+       ELSE LET wantCount == {t \in DOMAIN wantN : wantN[t] > 0}
+                badSet == {c \in conn \ gone : ActiveAt(c) # want}
+                badCnt == {c \in conn \ gone : ActiveAt(c) # wantCount}
+                badp == IF badCnt = {} THEN {} ELSE badSet IN
             IF badp = {} THEN NoFlag
             ELSE IF badp \subseteq racy THEN Flag("C13/peer-disagrees:subscribe-during-join-window")
             ELSE IF gone # {} THEN Flag("C13/one-failure-blocked-others")
